@@ -242,6 +242,56 @@ func c14body(cs c14case) func() {
 	}
 }
 
+// C14 (H): the replica set of a master changes (CLUSTER REPLICATE moves a replica to the other master),
+// the proxy refreshes its table, then reads are issued under every strategy: a read may still only go to
+// the owning master or to nodes that replicate it now.
+func c14topologyBody(strategy int) func() {
+	return func() {
+		cl := cluster.New(2, 2, 2)
+		strat := pbredis.ReadStrategy(strategy)
+		s := vfStartStack(cl, vfSvcConfig(strat, nil, 0))
+		c := s.NewClient("c0")
+		keys := []string{cl.KeyInGroup("k", 0, 0), cl.KeyInGroup("k", 1, 0)}
+		m0, m1 := cl.Masters()[0], cl.Masters()[1]
+		var moved *cluster.Node
+		for _, n := range cl.Nodes {
+			if n.MasterOf == m0 {
+				moved = n
+				break
+			}
+		}
+		cl.Reparent(moved, m1)
+		// periodic refresh (2 virtual minutes) picks the new topology up
+		sched.AdvanceTime(int64(slotsRefFreq) + 1)
+		sched.WaitQuiescent()
+		s.RefreshRound()
+		for i := 0; i < 8; i++ {
+			sched.AdvanceTime(1)
+			for _, cmd := range [][]string{{"GET", keys[0]}, {"SET", keys[0], "v"}, {"GET", keys[1]}, {"HGETALL", keys[0]}} {
+				mark := len(cl.Log)
+				if _, err := c.Do(cmd...); err != nil {
+					sched.Fail("connection-failed / topology", err.Error())
+				}
+				sched.WaitQuiescent()
+				for _, e := range cl.DataCmds(mark) {
+					owner := cl.OwnerOfKey(e.Args[1])
+					node := cl.NodeByAddrID(e.Node)
+					write := redis5[strings.ToLower(e.Args[0])]
+					if node != owner && (write || node.MasterOf != owner) {
+						kind := "read-command-sent-outside-slot-owner-group"
+						if write {
+							kind = "write-command-sent-to-non-master"
+						}
+						sched.Fail(fmt.Sprintf("%s / after replica moved to another master / strategy=%s", kind, strat), fmt.Sprintf("%q arrived at %s, owner %s, %s replicates %s now", e.Args, e.Node, owner.ID, e.Node, node.MasterOf.ID))
+					}
+				}
+			}
+		}
+		_ = m1
+		sched.SetOutcome("ok")
+	}
+}
+
 func c14group(name string) string {
 	if _, ok := redis5[name]; ok {
 		return name
@@ -287,6 +337,29 @@ func c14run(env sched.Env) *sched.Report {
 }
 
 func init() {
+	sched.Register(&sched.Scenario{Name: "C14/topology", Custom: func(env sched.Env) *sched.Report {
+		rep := &sched.Report{Outcomes: map[string]int64{}, Complete: true}
+		for strat := 0; strat < 3; strat++ {
+			e := sched.RunOnce(nil, sched.Options{MaxSteps: 400000}, c14topologyBody(strat))
+			rep.Execs++
+			rep.Distinct += 32
+			rep.Transitions += int64(e.Steps())
+			rep.Outcomes[e.Outcome]++
+			if e.EndWhy != "main-returned" && len(e.Failures) == 0 {
+				e.Failures = append(e.Failures, sched.Failure{Sig: "execution-ended-" + e.EndWhy})
+			}
+			for _, f := range e.Failures {
+				rep.Violations = append(rep.Violations, sched.CustomViolation("C14/topology", f.Sig, f.Detail, strat))
+			}
+		}
+		rep.States = rep.Distinct
+		return rep
+	}, ReplayCustom: func(in json.RawMessage) []sched.Failure {
+		var strat int
+		json.Unmarshal(in, &strat)
+		e := sched.RunOnce(nil, sched.Options{MaxSteps: 400000}, c14topologyBody(strat))
+		return e.Failures
+	}})
 	sched.Register(&sched.Scenario{Name: "C14/commands", Custom: c14run, ReplayCustom: func(in json.RawMessage) []sched.Failure {
 		var cs c14case
 		json.Unmarshal(in, &cs)
